@@ -9,6 +9,14 @@
    (seeded margins / distractor values, occasionally large magnitudes) and decoded by the real greedy_decode_ctc, by
    GreedyDecoder on the log-softmax of each line and by PytorchEngineLineOCR.run_ocr with a stub network returning the same scores.
 3. Conformance: TLC judges every recorded execution in Greedy_Trace (all three texts of every line = Collapse).
+4. History: the decoders are driven the way long-running callers drive them - one character-table list edited in place, one
+   GreedyDecoder per alphabet and one engine object per process serve many cases; every fifth case first decodes ANOTHER small
+   batch with another alphabet on the very same objects, every tenth additionally makes calls that fail on them (table too
+   short, unnormalised log-probabilities, a network that raises) - and the recorded call must still be the collapse.
+5. Scale (kind "wide"): sampled tensors beyond what TLC enumerates - more than 255 / 1024 / 4096 / 32767 / 65535 frames, more than
+   255 / 32767 / 65535 classes, texts of more than 65535 characters; lines: random runs, all blank, one symbol from the first to the
+   last frame, single-frame runs.  The arg-max path is recorded run-length encoded and TLC computes the expected text from the
+   runs (Greedy_Trace, WideCollapse); Python only expands the runs into the tensor.
 """
 import itertools
 import random
@@ -88,60 +96,327 @@ def _inverse(text, table):
 
 
 _PERSISTENT_TABLE = []
+_LONG_LIVED = {}          # objects a long-running caller keeps: GreedyDecoder per alphabet, the engine
 
 
-def _decode_one(item):
+def _alphabet(nc, rot):
+    """nc - 1 distinct characters, not in code-point order; TABLE rotated for the small alphabets"""
+    if nc - 1 <= len(TABLE):
+        return (TABLE[rot:] + TABLE[:rot])[:nc - 1]
+    out, cp = [], 0x100 + 7 * rot
+    while len(out) < nc - 1:
+        if not (0xD800 <= cp <= 0xDFFF) and cp != 0x200B:
+            out.append(chr(cp))
+        cp += 1
+    half = len(out) // 2
+    return out[half:] + out[:half]
+
+
+def _single_thread():
+    """tensors here are small: the thread pool of torch only costs time (and fights with the parallel workers)"""
+    if not _LONG_LIVED.get("threads"):
+        import torch
+        torch.set_num_threads(1)
+        _LONG_LIVED["threads"] = True
+
+
+class _NetworkDown(RuntimeError):
+    pass
+
+
+def _down(batch):
+    raise _NetworkDown("stub network failure")
+
+
+def _engine(chars, fresh):
     import torch
-    from pero_ocr.ocr_engine.pytorch_ocr_engine import greedy_decode_ctc, PytorchEngineLineOCR
-    from pero_ocr.decoding.decoders import GreedyDecoder, BLANK_SYMBOL
-    paths, seed = item
-    nc = _CFG["C"]
-    # the character table varies from call to call (rotated alphabet), either as a fresh list or as ONE long-lived list object
-    # edited in place: the text must be mapped through the table that is passed in, whatever was decoded before
-    rot = seed % 3
-    letters = (TABLE[rot:] + TABLE[:rot])[:nc - 1]
-    if seed % 2:
-        chars = letters + [ENGINE_BLANK]
-    else:
-        _PERSISTENT_TABLE[:] = letters + [ENGINE_BLANK]
-        chars = _PERSISTENT_TABLE
-    rec = {"paths": [list(p) for p in paths], "outcome": "ok", "eng": [], "alone": [], "ocr": [], "filt": [], "logits_same": True}
-    try:
-        sc = render(paths, nc, seed)
-        assert (sc.argmax(axis=1) == np.array(paths)).all()
-        # engine-side decoder, 3-D input as in run_ocr
-        eng = greedy_decode_ctc(torch.from_numpy(sc.copy()), chars)
-        rec["eng"] = [_inverse(x, chars) for x in eng]
-        # stand-alone decoder on the normalised log-probabilities of each line (frames x symbols)
-        gd = GreedyDecoder(letters + [BLANK_SYMBOL])
-        alone = []
-        for i in range(len(paths)):
-            lp = torch.log_softmax(torch.from_numpy(sc[i].T.astype(np.float64).copy()), dim=1).numpy()
-            txt = gd(lp).best_hyp().replace(BLANK_SYMBOL, ENGINE_BLANK)
-            alone.append(_inverse(txt, chars))
-        rec["alone"] = alone
-        # the third greedy transcription of the library (pero_ocr/char_confidences.py, per-character confidences for a line):
-        # posteriors frames x symbols, blank last
-        from pero_ocr.char_confidences import greedy_filtration
-        filt = []
-        for i in range(len(paths)):
-            pr = torch.softmax(torch.from_numpy(sc[i].T.astype(np.float64).copy()), dim=1).numpy()
-            filt.append(_inverse(greedy_filtration(pr, chars)[0], chars))
-        rec["filt"] = filt
-        # the engine itself with a stub network (the network output IS the score tensor)
+    from pero_ocr.ocr_engine.pytorch_ocr_engine import PytorchEngineLineOCR
+    e = None if fresh else _LONG_LIVED.get("engine")
+    if e is None:
         e = PytorchEngineLineOCR.__new__(PytorchEngineLineOCR)
         e.device = torch.device("cpu")
         e.embed_id = None
+        if not fresh:
+            _LONG_LIVED["engine"] = e
+    e.characters = chars
+    return e
+
+
+def _standalone(letters, fresh):
+    from pero_ocr.decoding.decoders import GreedyDecoder, BLANK_SYMBOL
+    key = ("gd",) + tuple(letters) if len(letters) < 50 else ("gd", len(letters), letters[0])
+    gd = None if fresh else _LONG_LIVED.get(key)
+    if gd is None:
+        gd = GreedyDecoder(list(letters) + [BLANK_SYMBOL])
+        if not fresh:
+            _LONG_LIVED[key] = gd
+    return gd
+
+
+def _table(letters, persistent):
+    """the character table handed to the engine-side functions: a fresh list, or ONE long-lived list object edited in place"""
+    if not persistent:
+        return list(letters) + [ENGINE_BLANK]
+    _PERSISTENT_TABLE[:] = list(letters) + [ENGINE_BLANK]
+    return _PERSISTENT_TABLE
+
+
+def _decode_all(sc, chars, letters, gd, e, inv, rec):
+    """the four greedy transcriptions of the score tensor sc (N x C x T, float32), as class indices"""
+    import torch
+    from pero_ocr.ocr_engine.pytorch_ocr_engine import greedy_decode_ctc
+    from pero_ocr.decoding.decoders import BLANK_SYMBOL
+    from pero_ocr.char_confidences import greedy_filtration
+    n, nc, t = sc.shape
+    # engine-side decoder, 3-D input as in run_ocr
+    eng = greedy_decode_ctc(torch.from_numpy(sc.copy()), chars)
+    rec["eng"] = [inv(x) for x in eng]
+    # stand-alone decoder on the normalised log-probabilities of each line (frames x symbols)
+    alone = []
+    for i in range(n):
+        lp = torch.log_softmax(torch.from_numpy(sc[i].T.astype(np.float64).copy()), dim=1).numpy()
+        txt = gd(lp).best_hyp().replace(BLANK_SYMBOL, ENGINE_BLANK)
+        alone.append(inv(txt))
+    rec["alone"] = alone
+    # the third greedy transcription of the library (pero_ocr/char_confidences.py, per-character confidences for a line):
+    # posteriors frames x symbols, blank last
+    filt = []
+    for i in range(n):
+        pr = torch.softmax(torch.from_numpy(sc[i].T.astype(np.float64).copy()), dim=1).numpy()
+        filt.append(inv(greedy_filtration(pr, chars)[0]))
+    rec["filt"] = filt
+    # the engine itself with a stub network (the network output IS the score tensor)
+    stub_out = torch.from_numpy(sc.copy())
+    e.model = lambda batch: stub_out.clone()
+    dec, logits = e.run_ocr(np.zeros((n, 4, 4 * t, 3), dtype=np.uint8))
+    rec["ocr"] = [inv(x) for x in dec]
+    # not part of the statement (drift only): run_ocr hands the network output on as N x T x C
+    rec["logits_same"] = bool(logits.shape == (n, t, nc) and np.array_equal(logits, np.transpose(sc, (0, 2, 1))))
+
+
+def _failing_calls(nc, chars, gd, e):
+    """Calls outside the scope, on the long-lived objects, that may raise half-way: a character table shorter than the number of
+    classes, log-probabilities that are not normalised, a network that raises.  Whatever happens there, nothing may be left
+    behind for the next call."""
+    import torch
+    from pero_ocr.ocr_engine.pytorch_ocr_engine import greedy_decode_ctc
+    from pero_ocr.char_confidences import greedy_filtration
+    # the first line can still be decoded with the short table, the second cannot: the call fails half-way
+    path = [[0, 0, nc - 1], [(f + 1) % max(1, nc - 1) for f in range(3)]]
+    sc = render(path, nc, 12345)
+    full = list(chars)
+    short = chars
+    del short[1:]                    # the caller's table, too short for a moment (the same list object when it is long-lived)
+    try:
+        greedy_decode_ctc(torch.from_numpy(sc.copy()), short)
+    except BaseException:
+        pass
+    try:
+        greedy_filtration(torch.softmax(torch.from_numpy(sc[1].T.astype(np.float64).copy()), dim=1).numpy(), short)
+    except BaseException:
+        pass
+    short[:] = full
+    try:
+        gd(sc[1].T.astype(np.float64) + 3.0)
+    except BaseException:
+        pass
+    e.model = _down
+    try:
+        e.run_ocr(np.zeros((2, 4, 12, 3), dtype=np.uint8))
+    except BaseException:
+        pass
+
+
+def _prelude(nc, seed, chars_persistent, gd_of, e, fail):
+    """Another small batch, with another alphabet, decoded on the same long-lived objects just before the recorded call
+    (and, for some cases, calls that fail).  Its own texts are not recorded: every small batch is a case of its own."""
+    rng = random.Random(seed * 7 + 1)
+    rot = (seed + 1) % 3
+    letters = _alphabet(nc, rot)
+    chars = _table(letters, chars_persistent)
+    t = rng.randint(2, 4)
+    paths = [[rng.randrange(nc) for _ in range(t)] for _ in range(2)]
+    e.characters = chars
+    gd = gd_of(letters)
+    try:
+        _decode_all(render(paths, nc, seed + 17), chars, letters, gd, e, lambda x: 0, {})
+    except Exception:
+        pass
+    if fail:
+        _failing_calls(nc, chars, gd, e)
+
+
+def _decode_one(item):
+    paths, seed = item
+    nc = _CFG["C"]
+    _single_thread()
+    # the character table varies from call to call (rotated alphabet), either as a fresh list or as ONE long-lived list object
+    # edited in place: the text must be mapped through the table that is passed in, whatever was decoded before
+    rot = seed % 3
+    letters = _alphabet(nc, rot)
+    persistent = seed % 2 == 0
+    fresh = (seed // 2) % 2 == 1            # decoder / engine objects made for this case, or the long-lived ones of the process
+    case_objs = {}
+
+    def gd_of(ls):
+        if not fresh:
+            return _standalone(ls, False)
+        if tuple(ls) not in case_objs:
+            case_objs[tuple(ls)] = _standalone(ls, True)
+        return case_objs[tuple(ls)]
+    rec = {"kind": "batch", "paths": [list(p) for p in paths], "outcome": "ok", "eng": [], "alone": [], "ocr": [], "filt": [],
+           "logits_same": True, "hist": 0}
+    try:
+        e = _engine([], fresh)
+        if seed % 5 == 0:
+            rec["hist"] = 2 if seed % 10 == 0 else 1
+            _prelude(nc, seed, persistent, gd_of, e, seed % 10 == 0)
+        chars = _table(letters, persistent)
         e.characters = chars
-        stub_out = torch.from_numpy(sc.copy())
-        e.model = lambda batch: stub_out.clone()
-        dec, logits = e.run_ocr(np.zeros((len(paths), 8, 4 * len(paths[0]), 3), dtype=np.uint8))
-        rec["ocr"] = [_inverse(x, chars) for x in dec]
-        # not part of the statement (drift only): run_ocr hands the network output on as N x T x C
-        rec["logits_same"] = bool(logits.shape == (len(paths), len(paths[0]), nc) and np.array_equal(logits, np.transpose(sc, (0, 2, 1))))
+        sc = render(paths, nc, seed)
+        assert (sc.argmax(axis=1) == np.array(paths)).all()
+        _decode_all(sc, chars, letters, gd_of(letters), e, lambda x: _inverse(x, chars), rec)
     except Exception as ex:      # part of the observation
         rec["outcome"] = "exception:" + type(ex).__name__
     return rec
+
+
+# ------------------------------------------------------------------------------------------------ scale ("wide" cases)
+# (classes, lines, frames): beyond 255 / 1024 / 2048 / 4096 / 32767 / 65535 frames, beyond 255 / 32767 / 65535 classes
+# (few distinct class counts in the quick tier: one TLC run per class count, C is a constant of the specification)
+WIDE_QUICK = [(6, ["runs", "blank", "const", "short"], 300), (6, ["const", "runs", "blank", "runs"], 1500),
+              (6, ["runs", "const", "short"], 2600), (6, ["short", "const", "runs"], 4500), (6, ["const", "runs"], 33000),
+              (6, ["runs", "alt", "const"], 70000),
+              (300, ["runs", "short", "const"], 80), (300, ["short", "runs"], 1100), (70000, ["short", "runs"], 48)]
+WIDE_THOROUGH = [(3, ["runs", "const", "short", "blank"], 9000), (4, ["const", "runs"], 2048), (5, ["alt", "const"], 140000), (2, ["alt", "const", "blank"], 5000),
+                 (40000, ["short", "runs", "const"], 70), (1100, ["runs", "short"], 2100), (300, ["alt", "runs"], 9000)]
+
+
+def wide_cases(tier, seed):
+    shapes = WIDE_QUICK + (WIDE_THOROUGH if tier != "quick" else [])
+    rng = random.Random(seed * 31 + 4)
+    return [{"kind": "wide", "nc": nc, "lines": kinds, "T": t + rng.randint(0, max(8, t // 16)), "seed": seed * 1000 + 37 * k + 1}
+            for k, (nc, kinds, t) in enumerate(shapes)]
+
+
+def _wide_runs(case):
+    """run-length encoded arg-max paths of the lines of a wide case: per line the run symbols and the (cumulative) run ends"""
+    rng = random.Random(case["seed"])
+    nc, t_all = case["nc"], case["T"]
+    blank = nc - 1
+    # symbols from the whole class range: the first, the last one adjacent to the blank, and ids beyond 8 / 15 / 16 bits
+    pool = sorted({0, nc - 2, max(0, nc - 3)} | {rng.randrange(nc - 1) for _ in range(6)} |
+                  {k for k in (255, 256, 257, 32767, 32768, 65535, 65536) if k < nc - 1})
+    syms, ends = [], []
+    for kind in case["lines"]:
+        s, e, f = [], [], 0
+        while f < t_all:
+            if kind == "blank":
+                sym, ln = blank, t_all
+            elif kind == "const":
+                sym, ln = pool[len(pool) // 2], t_all
+            elif kind == "alt":          # single-frame runs, hardly any blank: a text about as long as the line has frames
+                sym, ln = (blank if rng.random() < 0.02 else rng.choice(pool)), 1
+            elif kind == "short":        # runs of 1-3 frames, repeats split by a single blank frame
+                sym, ln = (blank if rng.random() < 0.3 else rng.choice(pool[:3])), rng.choice([1, 1, 1, 2, 3])
+            else:                        # "runs": mixed lengths from one frame to hundreds
+                sym = blank if rng.random() < 0.35 else rng.choice(pool)
+                ln = rng.choice([1, rng.randint(2, 5), rng.randint(6, 80), rng.randint(6, 80), rng.randint(100, 600)])
+            if kind in ("alt", "short") and s and s[-1] == sym and sym != blank and rng.random() < 0.5:
+                continue
+            ln = min(ln, t_all - f)
+            f += ln
+            s.append(sym)
+            e.append(f)
+        syms.append(s)
+        ends.append(e)
+    return syms, ends
+
+
+def render_wide(paths, nc, seed):
+    """as render(), vectorised: N x C x T float32 with arg-max paths[n][f], margin >= 0.5 x magnitude"""
+    rs = np.random.RandomState(seed % (2 ** 31))
+    n, t = paths.shape
+    scale = [1.0, 5.0, 40.0][seed % 3]
+    top = rs.uniform(-2.0, 3.0, size=(n, 1, t))
+    sc = ((top - rs.uniform(0.5, 4.0, size=(n, nc, t))) * scale).astype(np.float32)
+    sc[np.arange(n)[:, None], paths, np.arange(t)[None, :]] = (top[:, 0, :] * scale).astype(np.float32)
+    return sc
+
+
+def run_wide(case):
+    """one wide case on the long-lived objects of this process, after a small batch and failing calls on the same objects"""
+    nc, seed = case["nc"], case["seed"]
+    _single_thread()
+    syms, ends = _wide_runs(case)
+    rec = {"kind": "wide", "nc": nc, "T": case["T"], "syms": syms, "ends": ends, "outcome": "ok", "eng": [], "alone": [], "ocr": [],
+           "filt": [], "logits_same": True, "seed": seed}
+    try:
+        paths = np.stack([np.repeat(np.array(s, dtype=np.int64), np.diff([0] + e)) for s, e in zip(syms, ends)])
+        letters = _alphabet(nc, seed % 3)
+        persistent = seed % 2 == 0
+        e = _engine([], False)
+        _prelude(nc, seed, persistent, lambda ls: _standalone(ls, False), e, True)
+        chars = _table(letters, persistent)
+        e.characters = chars
+        index = {ch: k for k, ch in enumerate(chars)}
+        sc = render_wide(paths, nc, seed)
+        assert sc.shape == (len(syms), nc, case["T"]) and (sc.argmax(axis=1) == paths).all()
+        _decode_all(sc, chars, letters, _standalone(letters, False), e, lambda x: [index.get(ch, nc + 99) for ch in x], rec)
+    except Exception as ex:      # part of the observation
+        rec["outcome"] = "exception:" + type(ex).__name__
+    return rec
+
+
+def _brief(x, k=12):
+    return [(v if len(v) <= 2 * k else v[:k] + ["...(%d)..." % len(v)] + v[-k:]) for v in x] if isinstance(x, list) else x
+
+
+def _corrupt_wide(tr):
+    import copy
+    tr = copy.deepcopy(tr)
+    line = next(k for k, x in enumerate(tr["ocr"]) if x)
+    tr["ocr"][line] = tr["ocr"][line] + tr["ocr"][line][-1:]      # the last character of a line comes out twice
+    return tr
+
+
+def judge_wide(ctx, cases, traces, label="wide", selftest=False):
+    """wide traces are validated per class count: C is a constant of the specification (Blank = C - 1).  selftest: a corrupted copy
+    of one recorded trace rides along (binding self-test, DESIGN.md 3.6) and must be rejected by the run_ocr clause."""
+    from ..core import MachineryFailure
+    rejected = []
+    for nc in sorted({tr["nc"] for tr in traces}):
+        idx = [i for i, tr in enumerate(traces) if tr["nc"] == nc]
+        group = [traces[i] for i in idx]
+        probe = next((tr for tr in group if tr["outcome"] == "ok" and tr["T"] > 1024 and len(tr["syms"][0]) < 3000 and any(tr["ocr"])), None)
+        probe = probe if selftest else None
+        if probe is not None:
+            group = group + [_corrupt_wide(probe)]
+            selftest = False
+        acc, rej = ctx.validate("Greedy_Trace", group, constants={"C": nc, "MaxT": 1, "N": 1, "Mut": "none"}, shards=1,
+                                jvm_mem="4g", label="Greedy_Trace %s C=%d" % (label, nc))
+        if probe is not None:
+            hit = [x for x in rej if x[0] == len(idx)]
+            rej = [x for x in rej if x[0] != len(idx)]
+            probe_rejected = group.index(probe) in [j for j, _ in rej]
+            ctx.notes.setdefault("selftest_corrupted_trace_rejected", []).append(bool(hit))
+            if not hit or (not probe_rejected and hit[0][1] != 4):
+                raise MachineryFailure("binding self-test failed for Greedy_Trace (wide): the corrupted trace was %s" % (hit or "accepted"))
+        rejected += [(idx[j], clause) for j, clause in rej]
+    for case, tr in zip(cases, traces):
+        ctx.count(1, ("wide", tr["nc"], tr["T"], tuple(case["lines"])))
+    changed = [tr for tr in traces if not tr.get("logits_same", True)]
+    if changed:
+        ctx.model_drift("run_ocr returns logits that are not the permuted network output", len(changed), {"wide": [changed[0]["nc"], changed[0]["T"]]})
+    for i, clause in rejected:
+        tr, case = traces[i], cases[i]
+        ctx.violation({"wide": case, "clause": clause}, SIGS.get(clause, "clause%d" % clause) + "-wide",
+                      "%s; %d lines (%s) x %d classes (blank=%d) x %d frames, arg-max path given by %s runs -> engine=%s stand-alone=%s "
+                      "run_ocr=%s greedy_filtration=%s outcome=%s (texts as class indices, abridged)" % (
+                          CLAUSES.get(clause, "?"), len(case["lines"]), "/".join(case["lines"]), tr["nc"], tr["nc"] - 1, tr["T"],
+                          [len(s) for s in tr["syms"]], _brief(tr["eng"]), _brief(tr["alone"]), _brief(tr["ocr"]), _brief(tr["filt"]),
+                          tr["outcome"]))
+    return rejected
 
 
 def execute(c, items):
@@ -181,7 +456,11 @@ def run(ctx):
                 "an adjacent repeat of a non-blank or a repeat split by one blank")
     ctx.assume("the arg-max of every frame is unique with margin >= 0.5 (ties in the network output are outside the statement)",
                "scores stay within (-1000, 1000), the range in which the forced prepended frame of greedy_decode_ctc dominates",
-               "only the 3-D (N x C x T) branch of greedy_decode_ctc is exercised")
+               "only the 3-D (N x C x T) branch of greedy_decode_ctc is exercised",
+               "decoder objects, the engine object and a character-table list may be re-used from call to call (also after a call that "
+               "raised); the text of a call depends on that call's scores and table only")
+    ctx.rule += ("; plus %d sampled wide tensors (classes, lines, frames) beyond 255 / 1024 / 4096 / 32767 / 65535 frames or classes, "
+                 "paths given as runs" % len(wide_cases(ctx.tier, ctx.seed)))
     ctx.exhaustive = True
     first = True
     for c in configs(ctx.tier):
@@ -206,12 +485,24 @@ def run(ctx):
                 return tr
             ctx.selftest_corrupt("Greedy_Trace", good, corrupt, constants=consts_of(c))
         first = False
+    # scale: sampled tensors beyond the sizes TLC enumerates, on the long-lived objects of this process
+    wcases = wide_cases(ctx.tier, ctx.seed)
+    wtraces = [run_wide(wc) for wc in wcases]
+    if not judge_wide(ctx, wcases, wtraces, selftest=True):
+        good = next(tr for tr in wtraces if len(tr["syms"]) >= 2 and tr["T"] > 1024 and len(tr["syms"][0]) < 3000)
+        ctx.sample({"config": "wide", "trace": {k: (_brief(v, 6) if isinstance(v, list) else v) for k, v in good.items()}}, limit=6)
+    ctx.notes["wide_cases"] = [[wc["nc"], len(wc["lines"]), wc["T"]] for wc in wcases]
     ctx.notes["explanation"] = ("TLC exhaustive on Greedy per (C, MaxT, N) with invariants %s; every batch decoded by greedy_decode_ctc, "
                                 "GreedyDecoder and a stub-network PytorchEngineLineOCR.run_ocr; texts mapped back through the character "
-                                "table and judged by TLC against Collapse" % INVS)
+                                "table and judged by TLC against Collapse; long-lived table / decoder / engine objects across cases, every fifth case "
+                                "after another batch (every tenth after failing calls) on the same objects; sampled wide tensors (not exhaustive) "
+                                "recorded as runs and judged by TLC against WideCollapse of the runs" % INVS)
 
 
 def replay(ctx, case):
+    if "wide" in case:
+        judge_wide(ctx, [case["wide"]], [run_wide(case["wide"])], label="replay")
+        return
     c = case["cfg"]
     tr = case["trace"]
     traces = execute(c, [(tuple(tuple(p) for p in tr["paths"]), case.get("seed", 0))])
